@@ -22,7 +22,7 @@ class ArbiterWorld(World):
     fault_kinds = ("byzantine_cycle", "lock_hold", "early_release", "cyc_without_stb",
                    "wait_state", "err_response", "rty_response", "stall", "spontaneous_response",
                    "contention", "rejected_add", "elaborated_while_still_being_populated",
-                   "second_instance_in_process", "domain_reset")
+                   "second_instance_in_process", "domain_reset", "very_long_locked_pause")
     assumptions = (
         "Amaranth's Python RTL simulator executes the elaborated netlist faithfully",
         "bounded liveness is asserted only in protocol mode (every owner eventually releases); "
@@ -58,6 +58,16 @@ class ArbiterWorld(World):
         if rng.chance(0.04):
             n = rng.range(9, 18)        # more initiators than any small-N special case covers
             aw = max(aw, 6)
+        big = rng.below(1000)
+        if big < 3:
+            n = rng.range(101, 104)     # three-digit indices
+            aw = max(aw, 8)
+        elif big in (3, 4):
+            n = rng.range(258, 260)     # indices beyond one byte
+            aw = max(aw, 10)
+            if dw == 8:
+                dw = 16
+                g = min(g, dw)
         intrs = []
         for i in range(n):
             ig = rng.choice([x for x in (8, 16, 32, 64) if g <= x <= dw])
@@ -84,7 +94,9 @@ class ArbiterWorld(World):
         mode = config["mode"]
         if mode in ("byz", "mixed"):
             p_cyc = rng.choice([0.2, 0.5, 0.5, 0.8])
-            for t in range(rng.range(40, 120) if mode == "byz" else rng.range(15, 50)):
+            span = (rng.range(40, 120) if mode == "byz" else rng.range(15, 50)) if n <= 18 \
+                else rng.range(10, 20)
+            for t in range(span):
                 iv = []
                 for i in range(n):
                     ig = config["intrs"][i]["g"]
@@ -95,13 +107,18 @@ class ArbiterWorld(World):
                             "t": [rng.below(2), rng.below(2), rng.below(2), rng.below(2),
                                   rng.bits(dw)]})
         if mode in ("proto", "mixed"):
-            for _ in range(rng.range(6, 24)):
-                ops.append({"k": "burst", "i": rng.below(n), "think": rng.range(0, 6),
+            for _ in range(rng.range(6, 24) if n <= 18 else rng.range(4, 8)):
+                ops.append({"k": "burst", "i": rng.below(n) if (n <= 18 or rng.chance(0.4))
+                            else n - 1 - rng.below(3),        # the far end of a long list
+                            "think": rng.range(0, 6),
                             "xfers": rng.range(1, 3), "lock": int(rng.chance(0.4)),
                             "gap": rng.choice([0, 0, 1, 2]),
                             "abandon": rng.range(1, 3) if rng.chance(0.12) else None,
                             "we": rng.below(2), "sel": rng.bits(8), "adr": rng.bits(aw),
                             "dat": rng.bits(dw)})
+                if rng.chance(0.002) and n <= 8:
+                    # a very long locked pause between two transfers of one cycle
+                    ops[-1].update(lock=1, xfers=2, gap=rng.range(1030, 1100), abandon=None)
             for _ in range(rng.range(10, 40)):
                 ops.append({"k": "resp", "delay": rng.choice([0, 0, 0, 1, 2, 3]),
                             "kind": rng.choice(["ack", "ack", "ack", "err", "rty"]),
@@ -215,7 +232,8 @@ class ArbiterWorld(World):
             if op.get("k") == "burst":
                 bursts[int(op.get("i", 0)) % n].append(op)
         resps = [op for op in ops if op.get("k") == "resp"]
-        proto_cap = 0 if config["mode"] == "byz" else 40 + 12 * sum(len(q) for q in bursts)
+        proto_cap = 0 if config["mode"] == "byz" else 40 + 12 * sum(len(q) for q in bursts) + \
+            sum(int(b_.get("gap") or 0) for q in bursts for b_ in q if int(b_.get("gap") or 0) >= 1000)
 
         def norm_byz_vec(i, v):
             ib, ig, f = intrs[i]
@@ -470,7 +488,10 @@ class ArbiterWorld(World):
                                     s["phase"] = "idle"
                                     s["cur"] = None
                                 else:
-                                    s["gapleft"] = min(int(s["cur"].get("gap", 0)), 3)
+                                    g_ = int(s["cur"].get("gap", 0))
+                                    s["gapleft"] = g_ if 1000 <= g_ <= 1200 else min(g_, 3)
+                                    if g_ >= 1000:
+                                        stats.fault("very_long_locked_pause")
                                     s["phase"] = "gap" if s["gapleft"] > 0 else "xfer"
                             else:
                                 s["waited"] += 1
